@@ -1,4 +1,336 @@
-//! c02 ops (see tools/props/c02.py)
-pub fn dispatch(_op: &str, _args: &[String]) -> bool {
-    false
+//! C02: rendering is total and its memory is bounded by the canvas.
+//!   c02-render  payload `opts\tdoc\tW\tH\tts[\tnode=<id>]` -> {"ok":true,"ms":..,"largest":..,"peak":..,"nonblank":..,"layers":..}
+//!               (a panic is reported by run_batch as {"panic":..,"at":..}; an abort / hang by the python driver)
+//!
+//! The counting global allocator lives here.  It only counts while a c02 render is running (one relaxed load
+//! otherwise) and refuses single allocations above 3 GiB (the process then aborts with the usual
+//! "memory allocation of N bytes failed", which the driver classifies) so that an unbounded surface cannot
+//! take the machine down.
+use crate::dump::esc;
+use crate::util::*;
+use std::alloc::{GlobalAlloc, Layout, System};
+use std::sync::atomic::{AtomicBool, AtomicI64, AtomicUsize, Ordering};
+
+pub struct Counting;
+
+static TRACK: AtomicBool = AtomicBool::new(false);
+static LARGEST: AtomicUsize = AtomicUsize::new(0);
+static LIVE: AtomicI64 = AtomicI64::new(0);
+static PEAK: AtomicI64 = AtomicI64::new(0);
+static TOTAL: AtomicUsize = AtomicUsize::new(0);
+const HARD_CAP: usize = 3 << 30;
+
+#[inline]
+fn note_alloc(size: usize) {
+    if TRACK.load(Ordering::Relaxed) {
+        LARGEST.fetch_max(size, Ordering::Relaxed);
+        TOTAL.fetch_add(size, Ordering::Relaxed);
+        let live = LIVE.fetch_add(size as i64, Ordering::Relaxed) + size as i64;
+        PEAK.fetch_max(live, Ordering::Relaxed);
+    }
+}
+
+unsafe impl GlobalAlloc for Counting {
+    unsafe fn alloc(&self, l: Layout) -> *mut u8 {
+        if l.size() > HARD_CAP {
+            return std::ptr::null_mut();
+        }
+        note_alloc(l.size());
+        System.alloc(l)
+    }
+    unsafe fn alloc_zeroed(&self, l: Layout) -> *mut u8 {
+        if l.size() > HARD_CAP {
+            return std::ptr::null_mut();
+        }
+        note_alloc(l.size());
+        System.alloc_zeroed(l)
+    }
+    unsafe fn dealloc(&self, p: *mut u8, l: Layout) {
+        if TRACK.load(Ordering::Relaxed) {
+            LIVE.fetch_sub(l.size() as i64, Ordering::Relaxed);
+        }
+        System.dealloc(p, l)
+    }
+    unsafe fn realloc(&self, p: *mut u8, l: Layout, new_size: usize) -> *mut u8 {
+        if new_size > HARD_CAP {
+            return std::ptr::null_mut();
+        }
+        if TRACK.load(Ordering::Relaxed) {
+            LARGEST.fetch_max(new_size, Ordering::Relaxed);
+            if new_size > l.size() {
+                TOTAL.fetch_add(new_size - l.size(), Ordering::Relaxed);
+            }
+            let live = LIVE.fetch_add(new_size as i64 - l.size() as i64, Ordering::Relaxed) + new_size as i64 - l.size() as i64;
+            PEAK.fetch_max(live, Ordering::Relaxed);
+        }
+        System.realloc(p, l, new_size)
+    }
+}
+
+#[global_allocator]
+static GLOBAL: Counting = Counting;
+
+pub fn dispatch(op: &str, _args: &[String]) -> bool {
+    match op {
+        "c02-render" => run_batch(op_render),
+        "c02-fit" => run_batch(op_fit),
+        "c02-classify" => run_batch(op_classify),
+        _ => return false,
+    }
+    true
+}
+
+fn find_node<'a>(g: &'a usvg::Group, id: &str) -> Option<&'a usvg::Node> {
+    for n in g.children() {
+        if n.id() == id {
+            return Some(n);
+        }
+        if let usvg::Node::Group(ref c) = n {
+            if let Some(x) = find_node(c, id) {
+                return Some(x);
+            }
+        }
+    }
+    None
+}
+
+fn first_ids(g: &usvg::Group, out: &mut Vec<String>, limit: usize) {
+    for n in g.children() {
+        if out.len() >= limit {
+            return;
+        }
+        if !n.id().is_empty() {
+            out.push(n.id().to_string());
+        }
+        if let usvg::Node::Group(ref c) = n {
+            first_ids(c, out, limit);
+        }
+    }
+}
+
+fn op_render(payload: &str) -> String {
+    let f: Vec<&str> = payload.split('\t').collect();
+    if f.len() < 5 {
+        return "{\"error\":\"bad payload\"}".into();
+    }
+    let tree = match parse_doc(f[0], f[1]) {
+        Ok(t) => t,
+        Err(e) => return format!("{{\"skip\":\"parse\",\"error\":{}}}", esc(&e)),
+    };
+    let w: u32 = f[2].parse().unwrap_or(0);
+    let h: u32 = f[3].parse().unwrap_or(0);
+    let ts = parse_ts(f[4]);
+    let node_mode = f.iter().skip(5).any(|x| x.starts_with("node"));
+    // watchdog: a render that exceeds the limit aborts the worker with a recognisable message (the batch
+    // driver's own timeout is per chunk, far too coarse for a hang search)
+    let limit_ms: u64 = f.iter().skip(5).find_map(|x| x.strip_prefix("limit=")).and_then(|x| x.parse().ok()).unwrap_or(0);
+    let done = std::sync::Arc::new(AtomicBool::new(false));
+    if limit_ms > 0 {
+        let d = done.clone();
+        std::thread::spawn(move || {
+            let t0 = std::time::Instant::now();
+            while !d.load(Ordering::SeqCst) {
+                if t0.elapsed().as_millis() as u64 > limit_ms {
+                    eprintln!("c02-watchdog: render exceeded {} ms", limit_ms);
+                    std::process::abort();
+                }
+                std::thread::sleep(std::time::Duration::from_millis(25));
+            }
+        });
+    }
+    struct Done(std::sync::Arc<AtomicBool>);
+    impl Drop for Done {
+        fn drop(&mut self) {
+            self.0.store(true, Ordering::SeqCst);
+        }
+    }
+    let _done = Done(done);
+    let mut pm = match tiny_skia::Pixmap::new(w, h) {
+        Some(p) => p,
+        None => return "{\"skip\":\"canvas\"}".into(),
+    };
+    let mut ids = Vec::new();
+    if node_mode {
+        first_ids(tree.root(), &mut ids, 8);
+    }
+    // make sure the counters are off again if the render panics (run_batch catches the unwind)
+    struct Guard;
+    impl Drop for Guard {
+        fn drop(&mut self) {
+            TRACK.store(false, Ordering::SeqCst);
+        }
+    }
+    LARGEST.store(0, Ordering::SeqCst);
+    LIVE.store(0, Ordering::SeqCst);
+    PEAK.store(0, Ordering::SeqCst);
+    TOTAL.store(0, Ordering::SeqCst);
+    let t0 = std::time::Instant::now();
+    let mut layers = 0usize;
+    {
+        let _g = Guard;
+        resvg::verif_hooks::start_trace();
+        TRACK.store(true, Ordering::SeqCst);
+        if node_mode {
+            for id in &ids {
+                if let Some(n) = find_node(tree.root(), id) {
+                    let _ = resvg::render_node(n, ts, &mut pm.as_mut());
+                }
+            }
+        } else {
+            resvg::render(&tree, ts, &mut pm.as_mut());
+        }
+        TRACK.store(false, Ordering::SeqCst);
+        for e in resvg::verif_hooks::take_trace() {
+            if e.starts_with("{\"ev\":\"layer\"") {
+                layers += 1;
+            }
+        }
+    }
+    let ms = t0.elapsed().as_millis();
+    // pixel validity: premultiplied colour <= alpha
+    let mut invalid = 0usize;
+    let mut nonblank = 0usize;
+    for p in pm.data().chunks_exact(4) {
+        if p[3] != 0 {
+            nonblank += 1;
+        }
+        if p[0] > p[3] || p[1] > p[3] || p[2] > p[3] {
+            invalid += 1;
+        }
+    }
+    format!(
+        "{{\"ok\":true,\"ms\":{},\"largest\":{},\"peak\":{},\"total\":{},\"nonblank\":{},\"invalid\":{},\"layers\":{},\"nodes\":{}}}",
+        ms,
+        LARGEST.load(Ordering::SeqCst),
+        PEAK.load(Ordering::SeqCst).max(0),
+        TOTAL.load(Ordering::SeqCst),
+        nonblank,
+        invalid,
+        layers,
+        ids.len()
+    )
+}
+
+/// payload: `x y w h X Y W H` (two IntRects) -> `x,y,w,h` | `none` | `invalid`
+fn op_fit(payload: &str) -> String {
+    let v: Vec<i64> = payload.split_whitespace().filter_map(|x| x.parse().ok()).collect();
+    if v.len() != 8 {
+        return "invalid".into();
+    }
+    let mk = |x: i64, y: i64, w: i64, h: i64| -> Option<tiny_skia::IntRect> {
+        tiny_skia::IntRect::from_xywh(i32::try_from(x).ok()?, i32::try_from(y).ok()?, u32::try_from(w).ok()?, u32::try_from(h).ok()?)
+    };
+    let (a, b) = match (mk(v[0], v[1], v[2], v[3]), mk(v[4], v[5], v[6], v[7])) {
+        (Some(a), Some(b)) => (a, b),
+        _ => return "invalid".into(),
+    };
+    match resvg::verif_hooks::fit_to_rect(a, b) {
+        Some(r) => format!("{},{},{},{}", r.x(), r.y(), r.width(), r.height()),
+        None => "none".into(),
+    }
+}
+
+/// Static class predicates of an input (no rendering): payload `opts\tdoc\tW\tH\tts`
+/// -> {"filters":n,"filter_px":max device-space filter region area,"filter_outside":n regions not inside max_bbox,
+///     "patterns":n,"tile_px":max pattern tile area,"morph_cost":max region area * window area,"octaves":max numOctaves}
+fn op_classify(payload: &str) -> String {
+    let f: Vec<&str> = payload.split('\t').collect();
+    if f.len() < 5 {
+        return "{\"error\":\"bad payload\"}".into();
+    }
+    let tree = match parse_doc(f[0], f[1]) {
+        Ok(t) => t,
+        Err(e) => return format!("{{\"skip\":\"parse\",\"error\":{}}}", esc(&e)),
+    };
+    let w: f64 = f[2].parse().unwrap_or(1.0);
+    let h: f64 = f[3].parse().unwrap_or(1.0);
+    let ts = parse_ts(f[4]);
+    #[derive(Default)]
+    struct Acc {
+        filters: usize,
+        filter_px: f64,
+        filter_outside: usize,
+        patterns: usize,
+        tile_px: f64,
+        morph_cost: f64,
+        octaves: u32,
+    }
+    fn paint_tile(p: &usvg::Paint, ts: tiny_skia::Transform, acc: &mut Acc) {
+        if let usvg::Paint::Pattern(ref pat) = p {
+            acc.patterns += 1;
+            let (sx, sy) = ts.pre_concat(pat.transform()).get_scale();
+            let a = (pat.rect().width() * sx) as f64 * (pat.rect().height() * sy) as f64;
+            if a > acc.tile_px {
+                acc.tile_px = a;
+            }
+            walk(pat.root(), tiny_skia::Transform::from_scale(sx, sy), 1.0, 1.0, acc);
+        }
+    }
+    fn walk(g: &usvg::Group, ts: tiny_skia::Transform, w: f64, h: f64, acc: &mut Acc) {
+        let ts = ts.pre_concat(g.transform());
+        for flt in g.filters() {
+            acc.filters += 1;
+            let (rw, rh, inside) = match flt.rect().transform(ts) {
+                Some(r) => {
+                    let inside = (r.left() as f64) >= -2.0 * w && (r.top() as f64) >= -2.0 * h && (r.right() as f64) <= 3.0 * w && (r.bottom() as f64) <= 3.0 * h;
+                    (r.width() as f64, r.height() as f64, inside)
+                }
+                None => (f64::INFINITY, f64::INFINITY, false),
+            };
+            if !inside {
+                acc.filter_outside += 1;
+            }
+            if rw * rh > acc.filter_px {
+                acc.filter_px = rw * rh;
+            }
+            let (sx, sy) = ts.get_scale();
+            for p in flt.primitives() {
+                match p.kind() {
+                    usvg::filter::Kind::Morphology(ref m) => {
+                        let win = ((m.radius_x().get() * sx * 2.0).max(1.0) as f64).min(rw) * ((m.radius_y().get() * sy * 2.0).max(1.0) as f64).min(rh);
+                        let c = rw.min(5.0 * w) * rh.min(5.0 * h) * win;
+                        if c > acc.morph_cost {
+                            acc.morph_cost = c;
+                        }
+                    }
+                    usvg::filter::Kind::Turbulence(ref t) => {
+                        acc.octaves = acc.octaves.max(t.num_octaves());
+                    }
+                    _ => {}
+                }
+            }
+        }
+        for n in g.children() {
+            match n {
+                usvg::Node::Group(ref c) => walk(c, ts, w, h, acc),
+                usvg::Node::Path(ref p) => {
+                    if let Some(f) = p.fill() {
+                        paint_tile(f.paint(), ts, acc);
+                    }
+                    if let Some(s) = p.stroke() {
+                        paint_tile(s.paint(), ts, acc);
+                    }
+                }
+                usvg::Node::Text(ref t) => walk(t.flattened(), ts, w, h, acc),
+                usvg::Node::Image(ref i) => {
+                    if let usvg::ImageKind::SVG(ref sub) = i.kind() {
+                        walk(sub.root(), ts, w, h, acc);
+                    }
+                }
+            }
+        }
+        if let Some(m) = g.mask() {
+            walk(m.root(), ts, w, h, acc);
+        }
+        if let Some(c) = g.clip_path() {
+            walk(c.root(), ts, w, h, acc);
+        }
+    }
+    let mut acc = Acc::default();
+    walk(tree.root(), ts, w, h, &mut acc);
+    let fin = |x: f64| if x.is_finite() { x } else { 1e300 };
+    format!(
+        "{{\"filters\":{},\"filter_px\":{:e},\"filter_outside\":{},\"patterns\":{},\"tile_px\":{:e},\"morph_cost\":{:e},\"octaves\":{}}}",
+        acc.filters, fin(acc.filter_px), acc.filter_outside, acc.patterns, fin(acc.tile_px), fin(acc.morph_cost), acc.octaves
+    )
 }
